@@ -251,6 +251,24 @@ func runC17(c *core.Ctx, r *core.Reporter) {
 	c17recheck(c, r)
 	c17printer(c, r, "C17.printer")
 	c17callerscope(c, r, "C17.callerscope")
+	// a pointer left nil by the losing side of a race inside a critical section
+	r.Rule("C17.lockednil", "in every function of the interpreter that takes a mutex (Lock/RLock), a pointer variable that is nil on some path (a branch inside or around the critical section leaves it unassigned: the entry was there when re-checked) is dereferenced only where the facts that hold exclude that path", 3)
+	nilPhi(c, r, "C17.lockednil", func(fn *ssa.Function) bool {
+		rel := core.RelPkg(fn.Pkg.Pkg.Path())
+		if rel != "slip" && !strings.HasPrefix(rel, "pkg/") {
+			return false
+		}
+		for _, b := range fn.Blocks {
+			for _, in := range b.Instrs {
+				if call, ok := in.(*ssa.Call); ok && !call.Call.IsInvoke() {
+					if g := call.Call.StaticCallee(); g != nil && (g.Name() == "Lock" || g.Name() == "RLock") && g.Pkg != nil && g.Pkg.Pkg.Path() == "sync" {
+						return true
+					}
+				}
+			}
+		}
+		return false
+	}, lenflow.New(c).NoReturn)
 }
 
 // c17relock: turning synchronisation on installs a new mutex. Doing that on an instance that is already
